@@ -154,6 +154,16 @@ func modeC03(thorough bool) {
 		}
 		in.sendBatch(lst, "", qs, 8*time.Second)
 	})
+	// more queries on one DoQ connection than the listener allows streams at a time, FINs in frames of their own
+	{
+		var qs []qspec
+		for k := 0; k < 130; k++ {
+			q := mkq(fmt.Sprintf("%s.r0t60d0.z1.test.", uniq()))
+			q.id = 0 // DoQ: the message ID is 0 on the wire
+			qs = append(qs, q)
+		}
+		in.sendQuicSeries(qs, 3*time.Second)
+	}
 	// wildcard UDP listener with multi_routes: the response comes from the address the query was sent to
 	par(6, func(i int) {
 		in.send("udpmr", []string{"127.0.0.1", "127.0.0.2", "127.0.0.3"}[i%3], mkq(fmt.Sprintf("%s.r0t60d0.z1.test.", uniq())), 3*time.Second, nil)
